@@ -15,8 +15,13 @@ Open Scope N_scope.
 
 (* For every configuration, initial folder list and well-formed history: what the workspace shows -
    open documents and cells with text, version, language; notebooks with version, metadata, cells in
-   order with their data; the cell -> notebook index; the folders; and that no notification was
+   order with their data; the cell -> notebook index; the folders; and how many notifications were
    answered with an error - is the reference folded over the same history in arrival order.
+   Well-formed excludes ONLY: a notebook listing the same cell document twice, cell data naming a
+   cell added by the same notification, a folder both added and removed by one notification (the
+   latter two: LSP leaves the order open).  Histories with changes / closes for documents and
+   notebooks that are NOT open (closed, or never opened) are covered: the reference says that they
+   change nothing - the document stays absent and is served from disk - and are reported.
    (Every prefix of a well-formed history is well formed: `C10_prefix`; so this is the workspace
    after EVERY message.) *)
 Definition C10_statement : Prop :=
@@ -66,6 +71,7 @@ Definition C10_closed_statement : Prop :=
                           get_notebook_document (impl_step cf s (NbClose n cs)) None (Some c) = None) /\
   (forall cf fs h n v meta cc st c,
      wf_history cf fs (h ++ [NbChange n v meta (Some cc)]) = true ->
+     aget n (w_nbs (run_ws cf fs h)) <> None ->
      cc_structure cc = Some st -> In c (st_close st) ->
      get_text_document (run_ws cf fs (h ++ [NbChange n v meta (Some cc)])) c = Disk c).
 
@@ -80,16 +86,34 @@ Proof.
 Qed.
 Print Assumptions C10_closed.
 
-(* Consistency of the derived index and absence of errors after a well-formed history *)
+(* Documents that are not open are served from disk rather than from stale state: in ANY state, a
+   textDocument/didChange (for whatever uri) never makes an absent document appear, and a notebook
+   change makes appear only the documents its structure lists under didOpen.  (With C10: a change
+   naming a document that is not open changes nothing at all.) *)
+Definition C10_not_open_statement : Prop :=
+  forall cf s,
+  (forall u v cs x, aget x (w_docs s) = None ->
+     get_text_document (impl_step cf s (DidChange u v cs)) x = Disk x) /\
+  (forall n v meta cc x, aget x (w_docs s) = None ->
+     (forall c st, cc = Some c -> cc_structure c = Some st ->
+                   ~ In x (map (fun it => fst (fst (fst it))) (st_open st))) ->
+     get_text_document (impl_step cf s (NbChange n v meta cc)) x = Disk x).
+
+Theorem C10_not_open : C10_not_open_statement.
+Proof. exact change_never_opens. Qed.
+Print Assumptions C10_not_open.
+
+(* Consistency of the derived index after a well-formed history; and no notification is answered
+   with an error when, in addition, every change refers to something that is open *)
 Theorem C10_index :
   forall cf fs h, wf_history cf fs h = true ->
     let s := run_ws cf fs h in
     (forall c n, aget c (w_cells s) = Some n -> aget c (w_docs s) <> None) /\
     (forall n nb, aget n (w_nbs s) = Some nb -> nodupb (cell_docs (n_cells nb)) = true) /\
-    w_errs s = 0.
+    (all_targets_open cf (spec_init fs) h = true -> w_errs s = 0).
 Proof.
   intros cf fs h Hw. destruct (index_consistent cf fs h Hw) as [H1 H2].
-  split; [exact H1|]. split; [exact H2|apply wf_no_error; exact Hw].
+  split; [exact H1|]. split; [exact H2|apply open_targets_no_error; exact Hw].
 Qed.
 
 (* What the text of a document IS after its changes is C04's subject: the document stored for a
@@ -126,13 +150,27 @@ Example C10_order_open_folders :
   o_folder (spec_run cf [] [Folders [(1, 5); (2, 6)] [2]]) 2 = None.
 Proof. vm_compute. repeat split. Qed.
 
-(* ill-formed: a change for a document / notebook that is not open is answered with an error report
-   and changes nothing; an empty didChange for a closed uri is silently dropped *)
+(* a change for a document / notebook that is not open (here: after its close, and never opened) is
+   well formed, changes nothing and is reported; an empty didChange for a closed uri is dropped;
+   a notebook change whose second text entry names a closed cell: everything up to that entry is
+   applied, the notification ends there with a report (model and reference alike) *)
 Example C10_unopened :
   let cf := (Utf16, SyncIncremental) in
-  w_errs (run_ws cf [] [DidChange 1 2 [Whole [97]]]) = 1 /\
-  w_errs (run_ws cf [] [NbChange 1 2 (Some 0) None]) = 1 /\
-  run_ws cf [] [DidChange 1 2 []] = init_ws [].
+  let h := [DidOpen (1, 0, 1%Z, [97]); DidClose 1; DidChange 1 2 [Whole [98]]; DidChange 1 3 [];
+            NbChange 1 2 (Some 0) None; DidClose 7; NbClose 7 [8]] in
+  wf_history cf [] h = true /\
+  get_text_document (run_ws cf [] h) 1 = Disk 1 /\ spec_get (spec_run cf [] h) 1 = SDisk 1 /\
+  w_docs (run_ws cf [] h) = [] /\ w_nbs (run_ws cf [] h) = [] /\
+  w_errs (run_ws cf [] h) = 2 /\ o_errs (spec_run cf [] h) = 2 /\
+  (let h2 := [NbOpen 1 (mkNb 1 None 0 [mkCell 2 2 None None; mkCell 2 3 None None])
+                     [(2, 0, 1%Z, [97]); (3, 0, 1%Z, [98])];
+              NbChange 1 2 (Some 4) (Some (mkCC (Some (mkStruct 0 1 [] [] [2])) []
+                        [(3, 7%Z, [Whole [99]]); (2, 8%Z, [Whole [100]]); (3, 9%Z, [Whole [101]])]))] in
+   wf_history cf [] h2 = true /\
+   get_text_document (run_ws cf [] h2) 2 = Disk 2 /\
+   option_map (fun x => source (fst x)) (aget 3 (w_docs (run_ws cf [] h2))) = Some [99] /\
+   option_map (fun x => source (fst x)) (o_doc (spec_run cf [] h2) 3) = Some [99] /\
+   w_errs (run_ws cf [] h2) = 1 /\ o_errs (spec_run cf [] h2) = 1).
 Proof. vm_compute. repeat split. Qed.
 
 (* the repaired defect (DESIGN section 6 row 13): a change whose metadata is the empty object {}
